@@ -140,9 +140,16 @@ CHECKS = {
         design_ref="DESIGN.md §4 C19",
         note="Programs are closed and deterministic; attribute renames are observed through execution (getattr / keyword use), not statically.",
     ),
+    "C18": dict(
+        technique="runtime differential execution in child processes: generated package trees on disk (G6 worlds); the original and every rewritten client run in fresh interpreters with the world on sys.path; a see(tag, obj) probe injected into builtins records what every used name resolves to (module name + file, defining module + qualified name, unique constant values) and the two event sequences are compared",
+        category="exploration",
+        text="64 (700 thorough) generated worlds x 8 (12) clients: plain modules, a package with __init__, a sub-module and a sub-package, re-export chains of depth 3 in every form (from / as / import / star, relative and absolute), __all__ in 8 syntactic forms, world names that shadow guessable imports (json, os, Path, Optional, queue, ...), a module importable only after a sys.path manipulation. Clients import in every statement form (plain, dotted, aliased, from, parenthesised, star, relative, stacked, duplicate, unused, __future__) at the top, after code, in if / try blocks, in functions and methods, as a script in the world root, as a module inside the package and as a package __init__ (format_file -> keep_imports). Entry points: each of the 8 import rules alone, format_code safe / default / keep_imports with step attribution, format_file. The rewritten client must produce the same exit status and the same (tag, descriptor) sequence.",
+        design_ref="DESIGN.md §4 C18",
+        note="pyrefact runs in the worker with cwd = world root; side effects of imports that are dropped are not compared; divergences attributed to a non-import rule are left to C01 (counted in the evidence).",
+    ),
 }
 
-NOT_YET = {"C18": "no check registered yet: the package-world monitor for import normalisation is still being built (see DESIGN.md §4 C18)"}
+NOT_YET = {}
 
 
 def main():
